@@ -150,7 +150,7 @@ def nestStr (log : List NestEv) : String :=
 
 /-- the generated facts about `_ServiceBrowserBase.async_update_records_complete` (D24b repair): are the pending changes detached
 before they are fired? -/
-def detaches : Bool := Gen.Cache.complete_takes_pending true && !Gen.Cache.complete_iterates_live
+def detaches : Bool := Browser.detachesCode
 
 def errName (e : PyExc) : String := if e = .other then "RuntimeError" else e.name
 
